@@ -127,6 +127,8 @@ def render(spec, t, cur, full, linkidx=None, absolute=False):
             return t[1]
         if k == 'fname':
             return spec['fnames'][t[1]]['name']
+        if k == 'undef':
+            return t[1]
         if k == 'ref':
             b, s, r, c = t[1]
             return q(b, s) + a1(r, c, absolute or (len(t) > 2 and t[2]))
@@ -441,7 +443,7 @@ def depth_levels(spec):
 # ---------------------------------------------------------------- strategy
 @st.composite
 def specs(draw, tier='quick', max_books=2, arrays=True, names=True, wholecols=True, errors=True,
-          min_cells=4, max_cells=14, const=None, sheet_classes=None, name_rate=6, arr_rate=10, alias_rate=0, fname_rate=0):
+          min_cells=4, max_cells=14, const=None, sheet_classes=None, name_rate=6, arr_rate=10, alias_rate=0, fname_rate=0, undef_rate=0):
     nb = draw(st.integers(1, max_books))
     used_names = set()
     books = []
@@ -487,7 +489,7 @@ def specs(draw, tier='quick', max_books=2, arrays=True, names=True, wholecols=Tr
         earlier = [k for ks in all_keys[:idx] for k in ks]
         later = {k for ks in all_keys[idx:] for k in ks}
         ctx = dict(spec=spec, locs=locs, earlier=earlier, later=later, cur=key, errors=errors,
-                   wholecols=wholecols, ncols_used=ncols_used, names_ok=names,
+                   wholecols=wholecols, ncols_used=ncols_used, names_ok=names, undef_rate=undef_rate,
                    arr_groups=[all_keys[j] for j in range(idx) if pos_list[j][1] is not None])
         if names and earlier and len(spec['names']) < 2 and draw(st.integers(0, name_rate - 1)) == 0:
             rect = draw(_dense_rect(ctx)) if draw(st.booleans()) else draw(_rect(ctx, small=True))
@@ -593,6 +595,8 @@ def _dense_rect(draw, ctx):
 def _scalar_ref(draw, ctx):
     kind = draw(st.integers(0, 9))
     names = ctx['spec']['names']
+    if ctx.get('undef_rate') and draw(st.integers(0, ctx['undef_rate'] - 1)) == 0:
+        return ['undef', draw(st.sampled_from(['NO_SUCH_NAME', 'undefined.name', 'Missing_1x']))]
     # a defined name is scoped to its workbook: only cells of that book use it
     single = [i for i, nm in enumerate(names) if nm['rect'][2:4] == nm['rect'][4:6] and nm['rect'][0] == ctx['cur'][0]]
     fn_mine = [i for i, fn in enumerate(ctx['spec'].get('fnames', [])) if fn['book'] == ctx['cur'][0]]
